@@ -232,6 +232,8 @@ struct Utxo {
     lock: Vec<u8>,
     /// the subscript a correct signer uses: bytes after the last separator executed before the check
     subscript: Vec<u8>,
+    /// two-stage family only: subscript of the FIRST check (key slot 0); `subscript` is the second check's
+    subscript_first: Vec<u8>,
     sep_in_branch: bool,
     n_seps: usize,
     compressed: bool,
@@ -267,6 +269,16 @@ fn build_utxo(u: &Value) -> Option<Utxo> {
             items.push(vec![0x88]);
             items.push(vec![if verify { 0xad } else { 0xac }]);
         }
+        "twostage" => {
+            // <pkA> CHECKSIGVERIFY <pkB> CHECKSIG : two checks, each with its own subscript
+            if keys.len() < 2 {
+                return None;
+            }
+            items.push(push(&pubkey_bytes(keys[0], true)));
+            items.push(vec![0xad]);
+            items.push(push(&pubkey_bytes(keys[1], true)));
+            items.push(vec![if verify { 0xad } else { 0xac }]);
+        }
         _ => {
             items.push(vec![0x50 + m as u8]);
             for k in &keys {
@@ -276,6 +288,7 @@ fn build_utxo(u: &Value) -> Option<Utxo> {
             items.push(vec![if verify { 0xaf } else { 0xae }]);
         }
     }
+    let m = if family == "twostage" { 2 } else { m };
     let check_idx = items.len() - 1;
     // separators at positions <= check_idx (before item p)
     let mut seps: Vec<usize> = u.get("seps").and_then(|s| s.as_array()).map(|a| a.iter().map(|x| x.as_u64().unwrap_or(0) as usize % (check_idx + 1)).collect()).unwrap_or_default();
@@ -286,6 +299,7 @@ fn build_utxo(u: &Value) -> Option<Utxo> {
     let mut lock: Vec<u8> = vec![];
     let mut last_sep_end: usize = 0; // byte offset right after the last executed separator
     let mut branch_tail: Option<usize> = None;
+    let mut first_check_sub_start: usize = 0;
     for (p, it) in items.iter().enumerate() {
         if sep_in_branch && p == branch_at {
             // OP_1 OP_IF OP_CODESEPARATOR OP_ENDIF : the separator executes inside the taken branch
@@ -299,12 +313,16 @@ fn build_utxo(u: &Value) -> Option<Utxo> {
             last_sep_end = lock.len();
             branch_tail = None;
         }
+        if family == "twostage" && p == 1 {
+            first_check_sub_start = last_sep_end;
+        }
         lock.extend_from_slice(it);
     }
     if verify {
         lock.push(0x51);
     }
     let subscript = lock[last_sep_end..].to_vec();
+    let subscript_first = lock[first_check_sub_start..].to_vec();
     let last_is_branch = sep_in_branch && branch_tail.is_some();
     let sep_class = if last_is_branch {
         "in-branch"
@@ -315,7 +333,7 @@ fn build_utxo(u: &Value) -> Option<Utxo> {
     } else {
         "none"
     };
-    Some(Utxo { family, m, keys, verify, value: ju64s(u, "value"), txid: jhex(u, "txid"), vout: ju64(u, "vout") as u32, lock, subscript, sep_in_branch: last_is_branch, n_seps: seps.len(), compressed, sep_class })
+    Some(Utxo { family, m, keys, verify, value: ju64s(u, "value"), txid: jhex(u, "txid"), vout: ju64(u, "vout") as u32, lock, subscript, subscript_first, sep_in_branch: last_is_branch, n_seps: seps.len(), compressed, sep_class })
 }
 
 struct SigRec {
@@ -324,6 +342,8 @@ struct SigRec {
     bytes: Vec<u8>, // DER + flag
     view: Vec<u8>,
     byz: bool,
+    /// the subscript this signature was made over
+    sub: Vec<u8>,
     obj: Option<SighashSignature>,
     /// (inputs, outputs) present when the signature was made
     built: (usize, usize),
@@ -364,12 +384,12 @@ impl Scenario for SpendNet {
         ScenarioInfo {
             property: "C15",
             name: "spend-net",
-            rule: "one case = one seeded collaborative-build history of 6-25 events on a shared real Transaction: builders add inputs/outputs, signers sign inputs (P2PK / P2PKH / m-of-n multisig 1<=m<=n<=3, CHECKSIG or *VERIFY form, code separators at seeded positions incl. inside an always-taken OP_IF) through Transaction::sign with any of the 12 standard flag bytes at any point of the build, finalise assembles unlocking scripts through Script::from_asm_string / P2PKHAddress::get_unlocking_script + set_input, parties mutate one field after signing (version, locktime, own/other outpoint, own/other sequence, an output value/script, output or input count, declared value, a key byte, a signature byte, the flag byte, signature order), a byzantine peer signs the byte-reversed digest, the transaction is shipped through extended CBOR/JSON, and a validator runs Interpreter::from_transaction on the live object and the shipped copy; non-trivial = a mutation, byzantine signature, out-of-order signing (signature made before the build was complete) or ship happened before a validation; distinct = fingerprint of the (event kind, family, flag, mutation kind, verdict) sequence",
+            rule: "one case = one seeded collaborative-build history of 6-45 events on a shared real Transaction: builders add inputs/outputs, signers sign inputs (P2PK / P2PKH / m-of-n multisig 1<=m<=n<=3 / a two-check script <pkA> CHECKSIGVERIFY <pkB> CHECKSIG whose checks have different subscripts, CHECKSIG or *VERIFY form, code separators at seeded positions incl. inside an always-taken OP_IF) through Transaction::sign with any of the 12 standard flag bytes at any point of the build, finalise assembles unlocking scripts through Script::from_asm_string / P2PKHAddress::get_unlocking_script + set_input, parties mutate one field after signing (version, locktime, own/other outpoint, own/other sequence, an output value/script, output or input count, declared value, a key byte, a signature byte, the flag byte, signature order), a byzantine peer signs the byte-reversed digest, the transaction is shipped through extended CBOR/JSON, and a validator runs Interpreter::from_transaction on the live object and the shipped copy; non-trivial = a mutation, byzantine signature, out-of-order signing (signature made before the build was complete) or ship happened before a validation; distinct = fingerprint of the (event kind, family, flag, mutation kind, verdict) sequence",
             abstract_state: "(family, m-of-n, flag, separators class, mutation kind since signing or none, shipped?, expected verdict)",
             real: &["bsv::Transaction (add_input/add_output/set_input/set_output/set_version/set_nlocktime, sign, to/from extended CBOR and JSON)", "bsv::Interpreter::{from_transaction, run, state}", "bsv::Script::{from_bytes, from_asm_string}", "bsv::P2PKHAddress::{from_pubkey, get_unlocking_script}", "bsv::SighashSignature, bsv::TxIn extended fields"],
             stub: &["covered-view model: a ~40-line table of which fields each flag commits to (not a byte-level preimage)", "ByzSigner: RFC 6979 textbook signer over the byte-reversed double-SHA256 of the library's own preimage", "locking scripts are assembled byte-wise by the harness (families fixed by the statement)"],
             assumptions: &["value mutations are not generated for legacy-flag signatures: the original algorithm does not commit to the value although the statement lists it", "ship events are applied only when the restored object re-serialises identically and keeps every input's locking script and declared value (fidelity of the formats is C18's subject)", "inputs/outputs are only appended or replaced in this scenario (prepend/insert histories are C04's)"],
-            required_probes: &["validate_expect_accept", "validate_expect_reject", "signed_before_build_complete", "mutated_covered_field", "mutated_uncovered_field", "family_p2pk", "family_p2pkh", "family_multisig", "flag_legacy", "flag_forkid", "separator_present", "shipped", "byz_signed", "sig_tampered", "validated_on_shipped_copy"],
+            required_probes: &["validate_expect_accept", "validate_expect_reject", "signed_before_build_complete", "mutated_covered_field", "mutated_uncovered_field", "family_p2pk", "family_p2pkh", "family_multisig", "family_twostage", "flag_legacy", "flag_forkid", "separator_present", "shipped", "byz_signed", "sig_tampered", "validated_on_shipped_copy"],
             quick_runs: 15_000,
             thorough_runs: 1_500_000,
             rlimit_as: 4 << 30,
@@ -381,8 +401,8 @@ impl Scenario for SpendNet {
         let n_utxo = rng.range(1, 3);
         let mut utxos = vec![];
         for u in 0..n_utxo {
-            let family = *rng.pick(&["p2pk", "p2pkh", "multisig"]);
-            let n = if family == "multisig" { rng.range(1, 3) } else { 1 };
+            let family = *rng.pick(&["p2pk", "p2pkh", "multisig", "multisig", "twostage"]);
+            let n = if family == "multisig" { rng.range(1, 3) } else if family == "twostage" { 2 } else { 1 };
             let mut keys: Vec<u64> = (0..KEYS.len() as u64).collect();
             rng.shuffle(&mut keys);
             keys.truncate(n as usize);
@@ -394,7 +414,7 @@ impl Scenario for SpendNet {
                 "sep_in_branch": rng.chance(1, 12), "branch_at": rng.below(8), "value": u64s(match rng.below(4) { 0 => 0, 1 => u64::MAX, _ => rng.below(1 << 44) }), "txid": hx(&txid), "vout": rng.below(3)}));
         }
         let mut events = vec![json!({"op": "setup", "utxos": utxos, "version": *rng.pick(&[1u32, 2, 0, u32::MAX]), "locktime": *rng.pick(&[0u32, 1, 499_999_999, u32::MAX])})];
-        let n_events = rng.range(6, 25);
+        let n_events = rng.range(6, 40);
         let mut n_in = 0u64;
         let mut n_out = 0u64;
         let swarm_flags: Vec<u8> = {
@@ -419,6 +439,51 @@ impl Scenario for SpendNet {
             }
         }
         while (events.len() as u64) < n_events {
+            // most of the time a whole episode on one input: sign round -> (build on) -> finalise -> (mutate) -> (ship) -> validate
+            if n_in > 0 && rng.chance(3, 5) {
+                let i = rng.below(n_in);
+                let mixed = rng.chance(1, 4);
+                let flag = *rng.pick(&swarm_flags);
+                for slot in 0..3 {
+                    let f = if mixed { *rng.pick(&swarm_flags) } else { flag };
+                    events.push(json!({"op": "sign", "input": i, "slot": slot, "flag": f}));
+                }
+                if rng.chance(1, 12) {
+                    events.push(json!({"op": "byz_sign", "input": i, "slot": rng.below(3), "flag": flag}));
+                }
+                if rng.chance(1, 4) && n_out < 4 {
+                    let mut o = Self::gen_out(rng);
+                    o["op"] = json!("add_output");
+                    events.push(o);
+                    n_out += 1;
+                }
+                events.push(json!({"op": "finalise", "input": i, "order": if rng.chance(1, 12) { "desc" } else { "asc" }, "api": rng.chance(1, 2)}));
+                if rng.chance(1, 3) {
+                    // another party finalises a different input in between (the normal workflow)
+                    let j = rng.below(n_in);
+                    for slot in 0..3 {
+                        events.push(json!({"op": "sign", "input": j, "slot": slot, "flag": *rng.pick(&swarm_flags)}));
+                    }
+                    events.push(json!({"op": "finalise", "input": j, "order": "asc", "api": rng.chance(1, 2)}));
+                }
+                for _ in 0..rng.weighted(&[40, 45, 15]) {
+                    let what = *rng.pick(&["version", "locktime", "outpoint", "sequence", "output_value", "output_script", "add_output", "add_input", "declared_value", "key_byte", "sig_byte", "flag_byte", "outpoint", "sequence", "output_value"]);
+                    // bias towards OTHER inputs/outputs than the signed one: that is where flags differ
+                    let mi = if rng.chance(1, 2) { i } else { rng.below(n_in) };
+                    events.push(json!({"op": "mutate", "what": what, "input": mi, "output": if n_out > 0 { rng.below(n_out) } else { 0 }, "r": rng.below(1 << 30), "utxo": rng.below(n_utxo)}));
+                    if what == "add_output" {
+                        n_out += 1;
+                    }
+                    if what == "add_input" {
+                        n_in += 1;
+                    }
+                }
+                if rng.chance(1, 5) {
+                    events.push(json!({"op": "ship", "fmt": *rng.pick(&["cbor", "json"])}));
+                }
+                events.push(json!({"op": "validate", "input": i}));
+                continue;
+            }
             match rng.weighted(&[8, 8, 26, 16, 16, 20, 4, 2]) {
                 0 => {
                     if n_in < 4 {
@@ -588,7 +653,8 @@ impl Scenario for SpendNet {
                             continue;
                         }
                     };
-                    let sub = match Script::from_bytes(&ut.subscript) {
+                    let sub_bytes: Vec<u8> = if ut.family == "twostage" && slot == 0 { ut.subscript_first.clone() } else { ut.subscript.clone() };
+                    let sub = match Script::from_bytes(&sub_bytes) {
                         Ok(s) => s,
                         Err(_) => {
                             ctx.probe("subscript_unparseable");
@@ -599,14 +665,14 @@ impl Scenario for SpendNet {
                     ctx.event(seq, &op, &format!("{}/{}", ut.family, flag_name(flag_b)));
                     ctx.probe(if is_forkid(flag_b) { "flag_forkid" } else { "flag_legacy" });
                     let value = m.ins[i].declared;
-                    let vw = view(&m, i, flag_b, &ut.subscript, value);
+                    let vw = view(&m, i, flag_b, &sub_bytes, value);
                     if op == "sign" {
                         let res = lib!("Transaction::sign", tx.sign(&keys[key], flag, i, &sub, value));
                         match (res, vw) {
                             (Ok(sig), Some(vw)) => {
                                 let bytes = sig.to_bytes().unwrap_or_default();
                                 ctx.observe(&bytes);
-                                ins[i].sigs.push(SigRec { key, flag: flag_b, bytes, view: vw, byz: false, obj: Some(sig), built: (m.ins.len(), m.outs.len()) });
+                                ins[i].sigs.push(SigRec { key, flag: flag_b, bytes, view: vw, byz: false, sub: sub_bytes.clone(), obj: Some(sig), built: (m.ins.len(), m.outs.len()) });
                             }
                             (Err(_), None) => ctx.probe("sign_refused_no_matching_output"),
                             (Ok(_), None) => {
@@ -632,7 +698,7 @@ impl Scenario for SpendNet {
                                 bytes.push(flag_b);
                                 ctx.fault("byzantine-signer(reversed-digest)");
                                 ctx.probe("byz_signed");
-                                ins[i].sigs.push(SigRec { key, flag: flag_b, bytes, view: vw, byz: true, obj: None, built: (m.ins.len(), m.outs.len()) });
+                                ins[i].sigs.push(SigRec { key, flag: flag_b, bytes, view: vw, byz: true, sub: sub_bytes.clone(), obj: None, built: (m.ins.len(), m.outs.len()) });
                             }
                         }
                     }
@@ -703,6 +769,18 @@ impl Scenario for SpendNet {
                                 }
                             }
                         }
+                        "twostage" => {
+                            // <sigB> <sigA>: the first check pops sigA
+                            let a = &ins[i].sigs[chosen[0]];
+                            let b = &ins[i].sigs[chosen[1]];
+                            match lib!("from_asm_string", Script::from_asm_string(&format!("{} {}", hx(&b.bytes), hx(&a.bytes)))) {
+                                Ok(s) => s,
+                                Err(_) => {
+                                    ctx.skip();
+                                    continue;
+                                }
+                            }
+                        }
                         "p2pk" => match lib!("from_asm_string", Script::from_asm_string(&hx(&first.bytes))) {
                             Ok(s) => s,
                             Err(_) => {
@@ -739,7 +817,7 @@ impl Scenario for SpendNet {
                         lib!("set_input", tx.set_input(i, &txin));
                     }
                     // multisig needs ascending key order
-                    if ut.family == "multisig" {
+                    if ut.family == "multisig" || ut.family == "twostage" {
                         let order: Vec<usize> = chosen.iter().map(|c| ut.keys.iter().position(|k| *k == ins[i].sigs[*c].key).unwrap_or(99)).collect();
                         if order.windows(2).any(|w| w[0] >= w[1]) {
                             order_ok = false;
@@ -882,7 +960,7 @@ impl Scenario for SpendNet {
                                                 // the pubkey a used signature has to match (a key that no signature uses and that lies
                                                 // before the last separator is legitimately uncommitted)
                                                 let used_key = ins_sig_key;
-                                                let kb = pubkey_bytes(used_key, if ut.family == "multisig" { true } else { ut.compressed });
+                                                let kb = pubkey_bytes(used_key, if ut.family == "multisig" || ut.family == "twostage" { true } else { ut.compressed });
                                                 let pos = lockb.windows(kb.len()).position(|w| w == kb.as_slice());
                                                 match pos {
                                                     Some(pp) => lockb[pp + 1 + (r as usize) % 31] ^= 1 << (r % 8),
@@ -1055,7 +1133,7 @@ impl Scenario for SpendNet {
                                     classes.push("wrong-signer".into());
                                     causes.push("wrong-signer".into());
                                 }
-                                match view(&m, i, sr.flag, &ut.subscript, m.ins[i].declared) {
+                                match view(&m, i, sr.flag, &sr.sub, m.ins[i].declared) {
                                     Some(now) => {
                                         if now != sr.view {
                                             expect = false;
